@@ -703,7 +703,7 @@ def C03(run):
 
 @prop('C04')
 def C04(run):
-    count_property(run, dict(rules=ALL, keys=['C04q', 'C04c', 'EXC'], proj=proj_C04, quick=5000, thorough=150000, extra_gate=lambda run: quota_gate(run) + formula_gate(run) + elect_gate(run),
+    count_property(run, dict(rules=ALL, keys=['C04q', 'C04c', 'EXCQ'], proj=proj_C04, quick=5000, thorough=150000, extra_gate=lambda run: quota_gate(run) + formula_gate(run) + elect_gate(run),
                              families=['plain', 'on_quota', 'symmetric', 'chains', 'sure_losers', 'few_supported', 'exact_threshold',
                                        'exact_threshold']))
 
